@@ -248,7 +248,16 @@ def padded_der(sig_der):
 # --------------------------------------------------------------------------------------
 # version 2
 # --------------------------------------------------------------------------------------
+# reference instant of all generated validity periods.  Far from the real present as long as the
+# harness owns the clock of the code under test; moved to the real present otherwise (see
+# certharness.CertImpl.settle_clock)
 T0 = datetime(2031, 5, 17, 12, 0, 0, tzinfo=timezone.utc)
+T0_FIXED = T0
+
+
+def set_reference_instant(t):
+    global T0
+    T0 = t.replace(microsecond=0)
 V2_ROOT = "sgx_root"
 
 
@@ -397,7 +406,7 @@ class V2World:
     X509_NAMES = ("platform_ca", "inter_ca", "quoting_enclave")
 
     def chain(self, depth=2, nest="wide-top", auth=None, curves=None, hashes_=None, custom=None,
-              root_curve="p256", root_key="root", leaf_window=None, key_fmt="uncompressed"):
+              root_curve="p256", root_key="root", leaf_window=None, key_fmt="uncompressed", windows=None):
         """root -> (depth-1) CA certificates -> leaf certificate -> attestation key -> quote.
 
         -> (doc, root_pem, meta); meta["x509"] = [(element name, not_before, not_after)] top first.
@@ -417,6 +426,8 @@ class V2World:
             nb, na = T0 - span * day, T0 + span * day
             if leaf_window is not None and i == len(names) - 1:
                 nb, na = leaf_window
+            if windows and i in windows:
+                nb, na = windows[i]
             der = self.cert(n, issuer, nb, na, scurve=curves[i], icurve=icurve, hash_name=hashes_[i])
             els.append(self.x509_element(n, V2_ROOT if i == 0 else names[i - 1], der))
             meta.append((n, nb, na))
